@@ -81,6 +81,18 @@ impl Transcript {
 fn enc_of(e: &Element) -> Vec<u8> {
     e.vartime_compress().0.to_vec()
 }
+/// everything both builds let a caller observe about an element: encoding, field encoding and
+/// the predicates (identity test, equality with the constants)
+fn obs_of(e: &Element) -> Vec<u8> {
+    let mut v = e.vartime_compress().0.to_vec();
+    v.extend_from_slice(&e.vartime_compress_to_field().to_bytes_le());
+    v.push(e.is_identity() as u8);
+    v.push((*e == Element::IDENTITY) as u8);
+    v.push((Element::IDENTITY == *e) as u8);
+    v.push((*e == Element::GENERATOR) as u8);
+    v.push((*e != Element::GENERATOR) as u8);
+    v
+}
 
 pub const STREAMS: [&str; 6] = ["decode", "elligator", "group-programs", "scalar-mul", "field-arith", "field-encoding"];
 
@@ -96,8 +108,7 @@ fn stream_decode(t: &mut Transcript, quick: bool) {
                 for c in el_coords(&e).iter() {
                     out.extend_from_slice(c);
                 }
-                out.extend_from_slice(&e.vartime_compress().0);
-                out.extend_from_slice(&e.vartime_compress_to_field().to_bytes_le());
+                out.extend_from_slice(&obs_of(&e));
             }
             Err(decaf377::EncodingError::InvalidEncoding) => out.push(2),
             Err(decaf377::EncodingError::InvalidSliceLength) => out.push(3),
@@ -120,7 +131,7 @@ fn stream_elligator(t: &mut Transcript, quick: bool) {
     let dom = c07::domain(&dc, quick);
     t.emit_par(&dom, |r0| {
         let e = Element::encode_to_curve(&fq(r0));
-        Rec { op: "encode_to_curve".into(), input: to32(r0).to_vec(), output: enc_of(&e) }
+        Rec { op: "encode_to_curve".into(), input: to32(r0).to_vec(), output: obs_of(&e) }
     });
     let k: u64 = if quick { 48 } else { 128 };
     let pairs: Vec<(u64, u64)> = (0..k * k).map(|i| (i / k, i % k)).collect();
@@ -201,7 +212,7 @@ fn stream_group(t: &mut Transcript, quick: bool) {
                 let s = &frontier[si];
                 let s0 = St { depth: 0, ..s.clone() };
                 let ns = gm.step(&s0, Act { form: forms[fi].0 as u16, a, b: NONE });
-                let out = if ns.kind == Kind::E && ns.c != [[0xEE; 32]; 4] { enc_of(&el_from_coords(&ns.c)) } else { vec![0xEE] };
+                let out = if ns.kind == Kind::E && ns.c != [[0xEE; 32]; 4] { obs_of(&el_from_coords(&ns.c)) } else { vec![0xEE] };
                 let operand = if a == SELF { "self".to_string() } else if a == NONE { String::new() } else if matches!(gm.forms[forms[fi].0].arg, Arg::Op1) { gm.pool[a as usize].name.clone() } else { gm.scalars[a as usize].name.clone() };
                 let mut input = enc_of(&el_from_coords(&s.c));
                 input.extend_from_slice(operand.as_bytes());
@@ -210,7 +221,7 @@ fn stream_group(t: &mut Transcript, quick: bool) {
             .collect();
         let mut next = vec![];
         for (rec, ns) in results {
-            let new = rec.output.len() == 32 && seen.insert(rec.output.clone());
+            let new = rec.output.len() > 32 && seen.insert(rec.output[..32].to_vec());
             t.push(rec);
             if new {
                 if let Some(ns) = ns {
@@ -246,7 +257,7 @@ fn stream_scalar(t: &mut Transcript, quick: bool) {
     }
     t.emit_par(&work, |&(si, fi, ki)| {
         let ns = gm.step(&seeds[si], Act { form: forms[fi].0 as u16, a: ki as u16, b: NONE });
-        let out = if ns.c != [[0xEE; 32]; 4] { enc_of(&el_from_coords(&ns.c)) } else { vec![0xEE] };
+        let out = if ns.c != [[0xEE; 32]; 4] { obs_of(&el_from_coords(&ns.c)) } else { vec![0xEE] };
         let mut input = enc_of(&el_from_coords(&seeds[si].c));
         for l in &gm.scalars[ki].limbs {
             input.extend_from_slice(&l.to_le_bytes());
